@@ -157,6 +157,15 @@ func main() {
 		}
 		return
 	}
+	if strings.HasPrefix(*probeSpec, "find:") {
+		w, _ := LoadWorld(*dir, nil)
+		for f := range w.allFuncs {
+			if strings.Contains(f.String(), strings.TrimPrefix(*probeSpec, "find:")) {
+				fmt.Println(f.String(), "|pkg:", funcPkgPath(f), "|blocks:", len(f.Blocks), "|syn:", f.Synthetic, "|targs:", len(f.TypeArgs()), "|recv:", f.Signature.Recv() != nil)
+			}
+		}
+		return
+	}
 	if *probeSpec == "mapranges" {
 		w, _ := LoadWorld(*dir, nil)
 		for _, r := range w.mapRanges() {
